@@ -2211,10 +2211,17 @@ impl LpgStore {
             Direction::Incoming => Box::new(std::iter::empty()),
         };
 
+        // A self-loop is in both adjacency lists of its node; in the undirected
+        // view it is still one edge, already yielded by the forward half.
+        let skip_loops = direction == Direction::Both;
         let backward: Box<dyn Iterator<Item = NodeId>> = match direction {
             Direction::Incoming | Direction::Both => {
                 if let Some(ref adj) = self.backward_adj {
-                    Box::new(adj.neighbors(node).into_iter())
+                    Box::new(
+                        adj.neighbors(node)
+                            .into_iter()
+                            .filter(move |src| !(skip_loops && *src == node)),
+                    )
                 } else {
                     Box::new(std::iter::empty())
                 }
@@ -2240,10 +2247,17 @@ impl LpgStore {
             Direction::Incoming => Box::new(std::iter::empty()),
         };
 
+        // A self-loop is in both adjacency lists of its node; in the undirected
+        // view it is still one edge, already yielded by the forward half.
+        let skip_loops = direction == Direction::Both;
         let backward: Box<dyn Iterator<Item = (NodeId, EdgeId)>> = match direction {
             Direction::Incoming | Direction::Both => {
                 if let Some(ref adj) = self.backward_adj {
-                    Box::new(adj.edges_from(node).into_iter())
+                    Box::new(
+                        adj.edges_from(node)
+                            .into_iter()
+                            .filter(move |(src, _)| !(skip_loops && *src == node)),
+                    )
                 } else {
                     Box::new(std::iter::empty())
                 }
